@@ -641,7 +641,7 @@ func htTemplate(c *Ctx, a *flAgg) {
 		a.und("HT-tpl", "indexHTML", "template constant not found", token.NoPos)
 		return
 	}
-	fns := map[string]interface{}{"funcClass": 1, "minus": 1, "pkgURL": 1, "srcURL": 1, "symbol": 1}
+	fns := funcMapNames(c)
 	builtins := map[string]interface{}{"and": 1, "or": 1, "not": 1, "len": 1, "index": 1, "eq": 1, "ne": 1, "lt": 1, "le": 1, "gt": 1, "ge": 1, "printf": 1, "print": 1, "println": 1, "html": 1, "js": 1, "urlquery": 1, "call": 1, "slice": 1}
 	trees, err := parse.Parse("t", src, "{{", "}}", fns, builtins)
 	if err != nil {
@@ -807,4 +807,24 @@ func htGen(c *Ctx, a *flAgg) {
 	} else {
 		a.bad("HT-gen", "indexHTML==goroutines.tpl", "data.go is not generated from the current goroutines.tpl: the template that is analysed is not the one that is documented", token.NoPos)
 	}
+}
+
+// funcMapNames lists the keys of the FuncMap built in toHTML (for parsing
+// the template with the names the program registers).
+func funcMapNames(c *Ctx) map[string]interface{} {
+	out := map[string]interface{}{}
+	fn := c.L.Func("stack", "", "toHTML")
+	if fn == nil {
+		return out
+	}
+	for _, b := range fn.Blocks {
+		for _, in := range b.Instrs {
+			if mu, ok := in.(*ssa.MapUpdate); ok {
+				if k, ok := mu.Key.(*ssa.Const); ok && k.Value != nil && k.Value.Kind() == constant.String {
+					out[constant.StringVal(k.Value)] = 1
+				}
+			}
+		}
+	}
+	return out
 }
